@@ -496,6 +496,47 @@ func runNQuads(c *Ctx) *Violation {
 	}
 	c.agg.Exhaustive["nquads/stream_cut_points_per_document"] = int64(len(doc) + 1)
 
+	// ---- a byte lost / a stray byte inserted in single statement lines ----
+	for _, s := range stmts {
+		line := []byte(s.String())
+		hl := hashBytes(line)
+		for pos := 0; pos <= len(line); pos++ {
+			for mode := 0; mode < 2; mode++ {
+				var cor string
+				kind := "del@k"
+				if mode == 0 {
+					if pos == len(line) {
+						continue
+					}
+					cor = string(line[:pos]) + string(line[pos+1:])
+				} else {
+					kind = "ins@k"
+					cor = string(line[:pos]) + string(rdfHostile[c.T.Choose(simrt.KFault, len(rdfHostile))]) + string(line[pos:])
+				}
+				pos, cor, kind := pos, cor, kind
+				if v := c.Guard("ParseNQuad/"+kind, func() string { return fmt.Sprintf("%s at %d: %q", kind, pos, cor) }, func() *Violation {
+					p, err := rdf.ParseNQuad(cor)
+					c.Case(kind, true, hl, uint64(pos), hashString(cor))
+					c.Oracle("damaged-error-or-stable")
+					if err != nil {
+						c.Outcome("damaged.rejected")
+						return nil
+					}
+					c.Outcome("damaged.accepted")
+					if p == nil {
+						return viol("nquads/ParseNQuad/nil", "ParseNQuad(%q) = (nil, nil)", cor)
+					}
+					q, err := rdf.ParseNQuad(p.String())
+					if err != nil || !rdfSame(p, q) {
+						return viol("nquads/ParseNQuad/accepted-unstable", "ParseNQuad(%q) = %v, but its String() %q parses to %v, %v", cor, rdfShow(p), p.String(), rdfShow(q), err)
+					}
+					return nil
+				}); v != nil {
+					return v
+				}
+			}
+		}
+	}
 	// ---- byte substitutions in single statement lines ----
 	for _, s := range stmts {
 		line := []byte(s.String())
